@@ -46,9 +46,7 @@ def make_replay(chk):
         body = REPLAY % json.dumps(case)
         path = chk.write_replay('ptr-%s' % OPS.get(case.get('op'), 'x'), body)
         rc, out = common.run_replay(path)
-        if rc not in (0, 1):
-            raise common.HarnessError('replay script crashed:\n' + out[-2000:])
-        return rc == 1, path
+        return common.replay_verdict(rc, out), path
     return replay
 
 
